@@ -113,6 +113,17 @@ func taintClosure(fn *ssa.Function, seeds []ssa.Value, opts *taintOpts) map[ssa.
 					}
 				case ssa.CallInstruction:
 					com := x.Common()
+					if bi, ok := com.Value.(*ssa.Builtin); ok && bi.Name() == "copy" && len(com.Args) == 2 && t[com.Args[1]] {
+						// copy(dst, src): the destination storage now holds the data
+						mark(com.Args[0])
+						if a := loadOf(com.Args[0]); a != nil {
+							mark(a)
+							mark(rootOfAddr(a))
+						}
+						if sl, ok := com.Args[0].(*ssa.Slice); ok {
+							mark(sl.X)
+						}
+					}
 					var marked []int
 					for i, a := range callArgs(com) {
 						if t[a] {
